@@ -14,6 +14,7 @@ pub fn run(ctx: &Ctx) -> Report {
         Plan { fam: "LIM", styles: plain.clone(), debug: vec![false], stride: 1 },
         Plan { fam: "F1", styles: plain.clone(), debug: vec![false], stride: 1 },
         Plan { fam: "STR", styles: plain.clone(), debug: vec![false], stride: 1 },
+        Plan { fam: "BIG", styles: plain.clone(), debug: vec![false], stride: 1 },
     ];
     run_plans(ctx, &mut rep, "C36", &plans, &|i| i.parsed);
     rep.require(rep.acc.nontrivial > 10_000, "many statements were printed and reparsed");
